@@ -8,6 +8,9 @@ duplicates, ids never issued, any timing of deadlines and drops); nothing is bou
 -/
 import KafkaVerif.Model.ConnMux
 import KafkaVerif.Model.TransportConn
+import KafkaVerif.Lemmas.BatchBytes
+import KafkaVerif.Gen.MuxFacts
+import KafkaVerif.Model.WireProg
 
 namespace KV.C06
 open KV KV.ConnMux
@@ -76,7 +79,7 @@ theorem inv_step {stream0 : List Frame} {s s' : State} {e : Event}
   | take seq =>
     simp only [step] at h
     split at h
-    · next f rest hl hst hs =>
+    · next f rest hrd hl hst hs =>
       split at h
       · next hid =>
         simp only [Option.some.injEq] at h; subst h
@@ -222,8 +225,8 @@ theorem inv_step {stream0 : List Frame} {s s' : State} {e : Event}
           | some c0 => simp [hc] at hst; exact ⟨c0, rfl, hst⟩
         have hown := hi.own hh c0 pos f hc0 (by rw [hw]; rfl)
         have key : ∀ st' : Status, (st'.frame = some (pos, f) ∨ st'.frame = none) → (∀ p f', st' ≠ .reading p f') →
-            ∀ cl, Inv stream0 { s with rlock := none, calls := setStatus s hh st', closed := cl } := by
-          intro st' hfr hnr cl
+            ∀ cl rd, Inv stream0 { s with rlock := none, calls := setStatus s hh st', closed := cl, rdead := rd } := by
+          intro st' hfr hnr cl rd
           constructor
           · exact hi.rest
           · intro i c hc
@@ -269,11 +272,14 @@ theorem inv_step {stream0 : List Frame} {s s' : State} {e : Event}
             · have := hi.reader i c p f' hc hr
               rw [hl] at this; simp at this; omega
         cases o <;> (simp only [Option.some.injEq] at h; subst h)
-        · exact key _ (Or.inl rfl) (by intro p f' hh'; cases hh') s.closed
-        · exact key _ (Or.inl rfl) (by intro p f' hh'; cases hh') s.closed
-        · exact key _ (Or.inr rfl) (by intro p f' hh'; cases hh') true
+        · exact key _ (Or.inl rfl) (by intro p f' hh'; cases hh') s.closed s.rdead
+        · exact key _ (Or.inl rfl) (by intro p f' hh'; cases hh') s.closed s.rdead
+        · exact key _ (Or.inr rfl) (by intro p f' hh'; cases hh') true true
       · cases h
     · cases h
+  | close =>
+    simp only [step, Option.some.injEq] at h; subst h
+    exact ⟨hi.rest, hi.range, hi.own, hi.once, hi.reader⟩
 
 theorem inv_run (stream0 : List Frame) : ∀ (es : List Event) (s s' : State),
     Inv stream0 s → runFrom s es = some s' → Inv stream0 s' := by
@@ -402,6 +408,43 @@ theorem unreadable_body_closes (s s' : State) (seq : Nat) (h : step s (.finish s
     · cases h
   · cases h
 
+/-- the read side is dead only on a closed conn (`abortRead` and the failed-`Peek` branch close first) -/
+theorem rdead_closed_step (s s' : State) (e : Event) (hrc : s.rdead = true → s.closed = true)
+    (h : step s e = some s') : s'.rdead = true → s'.closed = true := by
+  cases e <;> simp only [step] at h
+  all_goals
+    repeat' split at h
+    all_goals first
+      | (simp only [Option.some.injEq] at h; subst h; simp_all; done)
+      | cases h
+
+/-- **no_take_after_read_failure** — after a body that could not be read to its end (`finish io`: deadline in the
+middle of a response, bytes left, malformed body) or a failed `Peek`, no call is ever given anything from this conn:
+neither `take` nor `yield` nor `lone` is enabled (finding C06-D30: the code used to close the net.Conn but keep the
+rest of the response in its read buffer, where a caller that was already waiting found it) -/
+theorem no_take_after_read_failure (s : State) (hd : s.rdead = true) (seq seen : Nat) :
+    step s (.take seq) = none ∧ step s (.yield seq seen) = none ∧ step s (.lone seq seen) = none := by
+  simp [step, hd]
+
+theorem read_failure_kills_read_side (s s' : State) (seq : Nat) :
+    (step s (.finish seq .io) = some s' → s'.rdead = true) ∧ (step s (.peekErr seq) = some s' → s'.rdead = true) := by
+  constructor
+  · intro h; simp only [step] at h
+    repeat' split at h
+    all_goals first | (simp only [Option.some.injEq] at h; subst h; rfl) | cases h
+  · intro h; simp only [step] at h
+    repeat' split at h
+    all_goals first | (simp only [Option.some.injEq] at h; subst h; rfl) | cases h
+
+/-- dead stays dead -/
+theorem rdead_is_final (s s' : State) (e : Event) (hd : s.rdead = true) (h : step s e = some s') : s'.rdead = true := by
+  cases e <;> simp only [step] at h
+  all_goals
+    repeat' split at h
+    all_goals first
+      | (simp only [Option.some.injEq] at h; subst h; simp_all; done)
+      | cases h
+
 /-- once closed, always closed: no event re-opens the conn -/
 theorem closed_is_final (s s' : State) (e : Event) (hc : s.closed = true) (h : step s e = some s') :
     s'.closed = true := by
@@ -411,17 +454,17 @@ theorem closed_is_final (s s' : State) (e : Event) (hc : s.closed = true) (h : s
     · split at h <;> (simp at h; subst h; simp [hc])
   · split at h
     · split at h
-      · simp at h; subst h; exact hc
+      · simp at h; subst h; first | exact hc | rfl
       · cases h
     · cases h
   · split at h
     · split at h
-      · simp at h; subst h; exact hc
+      · simp at h; subst h; first | exact hc | rfl
       · cases h
     · cases h
   · split at h
     · split at h
-      · simp at h; subst h; exact hc
+      · simp at h; subst h; first | exact hc | rfl
       · cases h
     · cases h
   · split at h
@@ -432,6 +475,7 @@ theorem closed_is_final (s s' : State) (e : Event) (hc : s.closed = true) (h : s
       · split at h <;> (simp at h; subst h; simp [hc])
       · cases h
     · cases h
+  · simp at h; subst h; rfl
 
 /-- non-vacuity: two callers, responses in the opposite order, one foreign frame; both get their own -/
 example : (run [⟨2, 20⟩, ⟨1, 10⟩] [.write 10 true 1, .write 20 true 2, .yield 1 2, .take 2, .finish 2 .ok, .take 1, .finish 1 .ok]).map
@@ -439,7 +483,316 @@ example : (run [⟨2, 20⟩, ⟨1, 10⟩] [.write 10 true 1, .write 20 true 2, .
     some (some ⟨10, .done (.resp 1 ⟨1, 10⟩)⟩, some ⟨20, .done (.resp 0 ⟨2, 20⟩)⟩) := by decide
 
 example : (run [⟨7, 70⟩] [.write 10 true 1, .lone 1 7]).map (fun s => (s.calls 1, s.closed, s.stream)) =
-    some (some ⟨10, .done .err⟩, false, [⟨7, 70⟩]) := by decide
+    some (some ⟨10, .done .err⟩, true, [⟨7, 70⟩]) := by decide
+
+/-! ### with a truthful broker nobody is stranded in waitResponse
+
+The waiter spin found while building the harness (two or more callers in `waitResponse`, a frame at the head of the
+buffer that belongs to none of them: everybody yields for ever, no deadline fires because `Peek` is served from the
+buffer) needs a broker that duplicates or invents correlation ids.  This is the theorem behind that remark: if the
+broker answers only requests that were written (`causal`) and never answers one twice (`Truthful`), then on an open
+conn no call ever ends in an error, `ErrNoProgress` is unreachable, and the frame at the head of the stream always
+belongs to a caller that is waiting for it — so `take` is enabled for somebody. -/
+
+/-- the broker never answers a request twice -/
+def Truthful (stream0 : List Frame) : Prop := (stream0.map (·.id)).Nodup
+
+/-- the frame a peek looks at answers a request that has been written (a broker cannot answer the future) -/
+def causal (s : State) : Event → Bool
+  | .take _ | .yield _ _ | .lone _ _ =>
+    match s.stream with
+    | f :: _ => (List.range (s.nextSeq + 1)).any (fun j => j ≥ 1 && f.id == wire j)
+    | [] => true
+  | _ => true
+
+def stepC (s : State) (e : Event) : Option State := if causal s e then step s e else none
+
+def runFromC : State → List Event → Option State
+  | s, [] => some s
+  | s, e :: es => match stepC s e with
+    | none => none
+    | some s' => runFromC s' es
+
+/-- every number 1 … nextSeq is a call -/
+def Total (s : State) : Prop := ∀ i, 1 ≤ i → i ≤ s.nextSeq → (s.calls i).isSome = true
+
+theorem setStatus_isSome (s : State) (seq : Nat) (st : Status) (i : Nat) (h : (s.calls i).isSome = true) :
+    (setStatus s seq st i).isSome = true := by
+  simp only [setStatus]
+  split
+  · next heq => subst heq; cases hc : s.calls i with
+    | none => rw [hc] at h; cases h
+    | some c => simp
+  · exact h
+
+theorem total_step {s s' : State} {e : Event} (ht : Total s) (h : step s e = some s') : Total s' := by
+  cases e with
+  | write tag ok id =>
+    simp only [step] at h
+    split at h
+    · cases h
+    · split at h <;> (simp only [Option.some.injEq] at h; subst h) <;>
+      · intro i h1 h2
+        simp only [upd]
+        split
+        · rfl
+        · exact ht i h1 (by simp only at h2; omega)
+  | take seq =>
+    simp only [step] at h
+    split at h
+    · split at h
+      · simp only [Option.some.injEq] at h; subst h
+        intro i h1 h2; exact setStatus_isSome s seq _ i (ht i h1 h2)
+      · cases h
+    · cases h
+  | yield seq seen =>
+    simp only [step] at h
+    split at h
+    · split at h
+      · simp only [Option.some.injEq] at h; subst h; exact ht
+      · cases h
+    · cases h
+  | lone seq seen =>
+    simp only [step] at h
+    split at h
+    · split at h
+      · simp only [Option.some.injEq] at h; subst h
+        intro i h1 h2; exact setStatus_isSome s seq _ i (ht i h1 h2)
+      · cases h
+    · cases h
+  | peekErr seq =>
+    simp only [step] at h
+    split at h
+    · simp only [Option.some.injEq] at h; subst h
+      intro i h1 h2; exact setStatus_isSome s seq _ i (ht i h1 h2)
+    · cases h
+  | finish seq o =>
+    simp only [step] at h
+    split at h
+    · split at h
+      · cases o <;> (simp only [Option.some.injEq] at h; subst h) <;>
+        · intro i h1 h2; exact setStatus_isSome s seq _ i (ht i h1 h2)
+      · cases h
+    · cases h
+  | close => simp only [step, Option.some.injEq] at h; subst h; exact ht
+
+/-- on an open conn no call has failed -/
+def NoFailure (s : State) : Prop := s.closed = false → ∀ i c, s.calls i = some c → c.st ≠ .done .err
+
+theorem wire_inj {i j : Nat} (hi : i < 4294967296) (hj : j < 4294967296) (h : wire i = wire j) : i = j := by
+  unfold wire at h; omega
+
+/-- a frame still in the stream is not the frame of a call that already holds one with the same id -/
+theorem head_not_taken {stream0 : List Frame} (ht : Truthful stream0) {s : State} (hi : Inv stream0 s)
+    {f : Frame} {rest : List Frame} (hs : s.stream = f :: rest) {j : Nat} {c : Call} {p : Nat} {g : Frame}
+    (hc : s.calls j = some c) (hg : c.st.frame = some (p, g)) (hid : f.id = wire j) : False := by
+  have ho := hi.own j c p g hc hg
+  have hdrop : stream0.drop s.consumed = f :: rest := by rw [hi.rest, hs]
+  have hf : stream0[s.consumed]? = some f := by
+    have := List.getElem?_drop (xs := stream0) (i := s.consumed) (j := 0)
+    rw [hdrop] at this; simpa using this.symm
+  have hp : p < s.consumed := ho.2.2
+  -- two positions of stream0 with the same id
+  unfold Truthful at ht
+  rw [List.Nodup, List.pairwise_iff_getElem] at ht
+  obtain ⟨hlp, hgp⟩ := List.getElem?_eq_some_iff.mp ho.1
+  obtain ⟨hlc, hgc⟩ := List.getElem?_eq_some_iff.mp hf
+  have := ht p s.consumed (by simpa using hlp) (by simpa using hlc) hp
+  apply this
+  simp only [List.getElem_map, hgp, hgc]
+  rw [ho.2.1, hid]
+
+theorem noFailure_step {stream0 : List Frame} (ht : Truthful stream0) {s s' : State} {e : Event}
+    (hi : Inv stream0 s) (htot : Total s) (hn : NoFailure s) (h : stepC s e = some s') : NoFailure s' := by
+  unfold stepC at h
+  split at h
+  · rename_i hcau
+    cases e with
+    | write tag ok id =>
+      simp only [step] at h
+      split at h
+      · cases h
+      · split at h <;> (simp only [Option.some.injEq] at h; subst h)
+        · intro hcl i c hc
+          simp only [upd] at hc
+          split at hc
+          · simp at hc; subst hc; simp
+          · exact hn hcl i c hc
+        · intro hcl; simp at hcl
+    | take seq =>
+      simp only [step] at h
+      split at h
+      · split at h
+        · simp only [Option.some.injEq] at h; subst h
+          intro hcl i c hc
+          simp only [setStatus] at hc
+          split at hc
+          · cases hcs : s.calls seq with
+            | none => rw [hcs] at hc; simp at hc
+            | some c0 => rw [hcs] at hc; simp at hc; subst hc; simp
+          · exact hn hcl i c hc
+        · cases h
+      · cases h
+    | yield seq seen =>
+      simp only [step] at h
+      split at h
+      · split at h
+        · simp only [Option.some.injEq] at h; subst h; exact hn
+        · cases h
+      · cases h
+    | lone seq seen =>
+      -- `lone` closes the conn (since /repo bb4e500): nothing to show for an open conn
+      simp only [step] at h
+      split at h
+      · split at h
+        · simp only [Option.some.injEq] at h; subst h; intro hcl; simp at hcl
+        · cases h
+      · cases h
+    | peekErr seq =>
+      simp only [step] at h
+      split at h
+      · simp only [Option.some.injEq] at h; subst h; intro hcl; simp at hcl
+      · cases h
+    | finish seq o =>
+      simp only [step] at h
+      split at h
+      · split at h
+        · cases o <;> (simp only [Option.some.injEq] at h; subst h)
+          · intro hcl i c hc
+            simp only [setStatus] at hc
+            split at hc
+            · cases hcs : s.calls seq with
+              | none => rw [hcs] at hc; simp at hc
+              | some c0 => rw [hcs] at hc; simp at hc; subst hc; simp
+            · exact hn hcl i c hc
+          · intro hcl i c hc
+            simp only [setStatus] at hc
+            split at hc
+            · cases hcs : s.calls seq with
+              | none => rw [hcs] at hc; simp at hc
+              | some c0 => rw [hcs] at hc; simp at hc; subst hc; simp
+            · exact hn hcl i c hc
+          · intro hcl; simp at hcl
+        · cases h
+      · cases h
+    | close => simp only [step, Option.some.injEq] at h; subst h; intro hcl; simp at hcl
+  · cases h
+
+/-- with a truthful broker `io.ErrNoProgress` cannot happen on an open conn: the head answers a written request
+j ≠ seq; j is not waiting (seq is alone) and has not failed, so it already holds a frame with that id — the broker
+would have answered twice -/
+theorem lone_disabled {stream0 : List Frame} (ht : Truthful stream0) {s : State} (hi : Inv stream0 s) (htot : Total s)
+    (hn : NoFailure s) (hcl : s.closed = false) (seq seen : Nat) (hcau : causal s (.lone seq seen) = true) :
+    step s (.lone seq seen) = none := by
+  cases h : step s (.lone seq seen) with
+  | none => rfl
+  | some s' =>
+    exfalso
+    simp only [step] at h
+    split at h
+    · next f rest hl hst hs =>
+      split at h
+      · rename_i hcond
+        obtain ⟨hseen, hne, halone⟩ := hcond
+        simp only [causal, hs, List.any_eq_true, Bool.and_eq_true, decide_eq_true_eq, beq_iff_eq, List.mem_range] at hcau
+        obtain ⟨j, hjr, hj1, hjid⟩ := hcau
+        have hjs : j ≠ seq := by
+          intro heq; subst heq; rw [hseen] at hjid; exact hne hjid
+        simp only [aloneWaiting, List.all_eq_true, List.mem_range, Bool.or_eq_true, beq_iff_eq, bne_iff_ne, ne_eq] at halone
+        rcases halone j hjr with hja | hja
+        · exact hjs hja
+        · cases hcj : s.calls j with
+          | none =>
+            have := htot j hj1 (by omega)
+            rw [hcj] at this; cases this
+          | some c =>
+            have hnw : c.st ≠ .waiting := by
+              intro hw; apply hja; simp [statusOf, hcj, hw]
+            have hne2 := hn hcl j c hcj
+            cases hst2 : c.st with
+            | waiting => exact hnw hst2
+            | reading p g => exact head_not_taken ht hi hs hcj (by rw [hst2]; rfl) hjid
+            | done r =>
+              cases r with
+              | err => exact hne2 hst2
+              | resp p g => exact head_not_taken ht hi hs hcj (by rw [hst2]; rfl) hjid
+              | kafkaErr p g => exact head_not_taken ht hi hs hcj (by rw [hst2]; rfl) hjid
+      · cases h
+    · cases h
+
+theorem stepC_step {s s' : State} {e : Event} (h : stepC s e = some s') : step s e = some s' := by
+  unfold stepC at h; split at h
+  · exact h
+  · cases h
+
+theorem truthful_run {stream0 : List Frame} (ht : Truthful stream0) : ∀ (es : List Event) (s s' : State),
+    Inv stream0 s → Total s → NoFailure s → runFromC s es = some s' → Inv stream0 s' ∧ Total s' ∧ NoFailure s' := by
+  intro es
+  induction es with
+  | nil => intro s s' hi htot hn h; simp [runFromC] at h; subst h; exact ⟨hi, htot, hn⟩
+  | cons e es ih =>
+    intro s s' hi htot hn h
+    simp only [runFromC] at h
+    split at h
+    · cases h
+    · next s1 h1 =>
+      exact ih s1 s' (inv_step hi (stepC_step h1)) (total_step htot (stepC_step h1)) (noFailure_step ht hi htot hn h1) h
+
+theorem rdead_closed_runC : ∀ (es : List Event) (s s' : State),
+    (s.rdead = true → s.closed = true) → runFromC s es = some s' → (s'.rdead = true → s'.closed = true) := by
+  intro es
+  induction es with
+  | nil => intro s s' hrc h; simp [runFromC] at h; subst h; exact hrc
+  | cons e es ih =>
+    intro s s' hrc h
+    simp only [runFromC] at h
+    split at h
+    · cases h
+    · next s1 h1 => exact ih s1 s' (rdead_closed_step s s1 e hrc (stepC_step h1)) h
+
+/-- **truthful_broker_never_strands_waiters.**  If the broker answers only written requests and none of them
+twice (it may still reorder and delay as it likes), then in every reachable state of an open conn:
+(1) no call has failed; (3) `io.ErrNoProgress` cannot happen (`lone` is not enabled);
+(2) whenever the read lock is free, the frame at the head of the stream belongs to a caller that is waiting for
+    it, so that caller's `take` is enabled: the yield loop of `waitResponse` always has somebody to yield to. -/
+theorem truthful_broker_never_strands_waiters (stream0 : List Frame) (ht : Truthful stream0)
+    (es : List Event) (s : State) (h : runFromC (init stream0) es = some s) (hopen : s.closed = false) :
+    (∀ i c, s.calls i = some c → c.st ≠ .done .err) ∧
+    (s.rlock = none → ∀ f rest, s.stream = f :: rest → ∀ j, 1 ≤ j → j ≤ s.nextSeq → f.id = wire j →
+      (step s (.take j)).isSome = true) ∧
+    (∀ seq seen, causal s (.lone seq seen) = true → step s (.lone seq seen) = none) := by
+  have h0t : Total (init stream0) := by intro i h1 h2; simp [init] at h2; omega
+  have h0n : NoFailure (init stream0) := by intro _ i c hc; simp [init] at hc
+  obtain ⟨hi, htot, hn⟩ := truthful_run ht es (init stream0) s (inv_init stream0) h0t h0n h
+  refine ⟨hn hopen, ?_, fun seq seen hc => lone_disabled ht hi htot hn hopen seq seen hc⟩
+  intro hl f rest hs j hj1 hjn hid
+  have hrd : s.rdead = false := by
+    have := rdead_closed_runC es (init stream0) s (by simp [init]) h
+    cases hd : s.rdead with
+    | false => rfl
+    | true => rw [this hd] at hopen; cases hopen
+  cases hcj : s.calls j with
+  | none => have := htot j hj1 hjn; rw [hcj] at this; cases this
+  | some c =>
+    have hne := hn hopen j c hcj
+    have hw : c.st = .waiting := by
+      cases hst : c.st with
+      | waiting => rfl
+      | reading p g => exact (head_not_taken ht hi hs hcj (by rw [hst]; rfl) hid).elim
+      | done r =>
+        cases r with
+        | err => exact absurd hst hne
+        | resp p g => exact (head_not_taken ht hi hs hcj (by rw [hst]; rfl) hid).elim
+        | kafkaErr p g => exact (head_not_taken ht hi hs hcj (by rw [hst]; rfl) hid).elim
+    simp [step, hl, hrd, statusOf, hcj, hw, hs, hid]
+
+/-- the hypothesis is needed: one duplicated answer and two later callers — both waiters see a frame that belongs
+to neither, both can only yield (neither is alone), for ever -/
+theorem duplicate_answer_strands_waiters_counterexample :
+    let s := run [⟨1, 0⟩, ⟨1, 0⟩] [.write 10 true 1, .take 1, .finish 1 .ok, .write 20 true 2, .write 30 true 3]
+    s.map (fun s => ((step s (.take 2)).isSome, (step s (.take 3)).isSome, (step s (.lone 2 1)).isSome,
+                      (step s (.lone 3 1)).isSome, (step s (.yield 2 1)).isSome, (step s (.yield 3 1)).isSome)) =
+      some (false, false, false, false, true, true) := by decide
 
 /-! ## Part 2 — pooled connections of a Transport -/
 
@@ -547,10 +900,9 @@ theorem tinv_step {s s' : TransportConn.State} {e : TransportConn.Event}
               refine ⟨hid, by simp; omega, ?_⟩
               simp [TransportConn.upd]
         · cases h
-      · next x rest hs =>
-        simp only [Option.some.injEq] at h; subst h
-        exact upd_case cid { s.conns cid with st := .finished true, stream := rest, consumed := (s.conns cid).consumed + 1 } _
-          (by simp) (by intro _; simp; omega) (by simp) (by simp) (old_deliveries cid _ (by simp)) _ _
+      · simp only [Option.some.injEq] at h; subst h
+        exact upd_case cid { s.conns cid with st := .finished true, written := (s.conns cid).written - 1 } _
+          (by simp) (by intro _; simp; omega) (by simp) (Nat.le_refl _) (old_deliveries cid _ (Nat.le_refl _)) _ _
       · simp only [Option.some.injEq] at h; subst h
         exact upd_case cid { s.conns cid with st := .finished false } _ (by simp) (by simp [settled]) (by simp) (Nat.le_refl _)
           (old_deliveries cid _ (Nat.le_refl _)) _ _
@@ -672,5 +1024,471 @@ example : (TransportConn.run [.new 1 1 1 [⟨2, 7⟩, ⟨3, 8⟩], .recv 1 7, .a
 example : TransportConn.run [.new 1 1 1 [⟨9, 7⟩], .recv 1 7, .done 1 .ok] = none := by decide
 
 end Transport
+
+/-! ## Part 3 — a Batch consumes its frame whole, on every read path
+
+`ConnMux.take` removes a frame from the stream as a unit and `finish` says whether the conn survives.  For a Fetch
+exchange that is a statement about bytes: Model/BatchBytes.lean follows `ReadBatchWith`, the message-set reader and
+`Batch.Read / ReadMessage / Close` with the `remain` counter of the Go code, and the theorem below holds for EVERY
+sequence of reads the caller makes before Close (ReadMessage, Read into a buffer of any capacity, none at all),
+every fetch version header (v2, v5, v10), every content of the response (well formed, truncated, garbage) and either
+deadline outcome. -/
+section BatchBytes
+open KV.Reader KV.ConnOps KV.BatchBytes
+
+/-- the frame is finished: its counter is at zero (so the next byte of the stream is the next frame's first byte),
+or the stream has ended -/
+def FrameDone (s' : RS) : Prop := s'.sz = 0 ∨ s'.inp = []
+
+theorem discard_rest_done (s : RS) : FrameDone (discardN (↑s.sz) s).2 := by
+  cases h : discardN (↑s.sz) s with
+  | mk r s2 =>
+    cases r with
+    | ok u => exact Or.inl (discardN_all_ok h)
+    | error e => exact Or.inr (discardN_all_fail h).1
+
+/-- what `ReadBatchWith` hands to the Batch -/
+theorem openBatch_shape (expired : Bool) (v : Nat) (offset : Int) (s : RS) :
+    Adv s (openBatch expired v offset s).rs ∧
+    (((openBatch expired v offset s).hasMsgs = true ∧ (openBatch expired v offset s).empty = false) ∨
+     ((openBatch expired v offset s).empty = true ∧ FrameDone (openBatch expired v offset s).rs) ∨
+     ((openBatch expired v offset s).hasMsgs = false ∧ ∃ e, (openBatch expired v offset s).err = some e ∧
+        (keeps (some e) = true → FrameDone (openBatch expired v offset s).rs))) := by
+  have hh := runSteps_adv (fetchHeader v) { ver := v } s
+  unfold openBatch
+  cases hr : runSteps (fetchHeader v) { ver := v } s with
+  | mk r s1 =>
+    rw [hr] at hh
+    cases r with
+    | ok c =>
+      simp only
+      split
+      · -- the watermark shortcut: whatever the response still carries is skipped at once
+        have hd := conserves_discardN (↑s1.sz) s1
+        have hdone := discard_rest_done s1
+        split
+        · cases hx : discardN (↑s1.sz) s1 with
+          | mk r2 s2 =>
+            rw [hx] at hd hdone
+            cases r2 <;> exact ⟨Adv.trans hh hd, Or.inr (Or.inl ⟨rfl, hdone⟩)⟩
+        · rename_i hz
+          exact ⟨hh, Or.inr (Or.inl ⟨rfl, Or.inl (by show s1.sz = 0; omega)⟩)⟩
+      · have h2 := conserves_readHeader01 s1
+        cases hd : readHeader01 s1 with
+        | mk r2 s2 =>
+          rw [hd] at h2
+          cases r2 with
+          | ok h => exact ⟨Adv.trans hh h2, Or.inl ⟨rfl, rfl⟩⟩
+          | error e => cases e <;> exact ⟨Adv.trans hh h2, Or.inl ⟨rfl, rfl⟩⟩
+    | error e =>
+      have drain : ∀ (k : BErr), Adv s (if s1.sz > 0 then
+            match discardN (↑s1.sz) s1 with
+            | (.ok _, s2) => ({ rs := s2, pending := none, offset := offset, err := some k, hasMsgs := false, empty := false } : BSt)
+            | (.error e, s2) => { rs := s2, pending := none, offset := offset, err := some (ofErr e), hasMsgs := false, empty := false }
+          else { rs := s1, pending := none, offset := offset, err := some k, hasMsgs := false, empty := false }).rs ∧
+          ((if s1.sz > 0 then
+            match discardN (↑s1.sz) s1 with
+            | (.ok _, s2) => ({ rs := s2, pending := none, offset := offset, err := some k, hasMsgs := false, empty := false } : BSt)
+            | (.error e, s2) => { rs := s2, pending := none, offset := offset, err := some (ofErr e), hasMsgs := false, empty := false }
+          else { rs := s1, pending := none, offset := offset, err := some k, hasMsgs := false, empty := false }).hasMsgs = false ∧
+           ∃ e', (if s1.sz > 0 then
+            match discardN (↑s1.sz) s1 with
+            | (.ok _, s2) => ({ rs := s2, pending := none, offset := offset, err := some k, hasMsgs := false, empty := false } : BSt)
+            | (.error e, s2) => { rs := s2, pending := none, offset := offset, err := some (ofErr e), hasMsgs := false, empty := false }
+          else { rs := s1, pending := none, offset := offset, err := some k, hasMsgs := false, empty := false }).err = some e' ∧
+            (keeps (some e') = true → FrameDone (if s1.sz > 0 then
+            match discardN (↑s1.sz) s1 with
+            | (.ok _, s2) => ({ rs := s2, pending := none, offset := offset, err := some k, hasMsgs := false, empty := false } : BSt)
+            | (.error e, s2) => { rs := s2, pending := none, offset := offset, err := some (ofErr e), hasMsgs := false, empty := false }
+          else { rs := s1, pending := none, offset := offset, err := some k, hasMsgs := false, empty := false }).rs)) := by
+        intro k
+        have hd := conserves_discardN (↑s1.sz) s1
+        have hdone := discard_rest_done s1
+        split
+        · cases hx : discardN (↑s1.sz) s1 with
+          | mk r2 s2 =>
+            rw [hx] at hd hdone
+            cases r2 <;> exact ⟨Adv.trans hh hd, rfl, _, rfl, fun _ => hdone⟩
+        · rename_i hz
+          exact ⟨hh, rfl, _, rfl, fun _ => Or.inl (by show s1.sz = 0; omega)⟩
+      cases e with
+      | kafka k =>
+        have := drain (.kafka k)
+        exact ⟨this.1, Or.inr (Or.inr this.2)⟩
+      | shortRead =>
+        simp only
+        split
+        · have := drain (.kafka 7)
+          exact ⟨this.1, Or.inr (Or.inr this.2)⟩
+        · exact ⟨hh, Or.inr (Or.inr ⟨rfl, _, rfl, by simp [keeps]⟩)⟩
+      | eof => exact ⟨hh, Or.inr (Or.inr ⟨rfl, _, rfl, by simp [keeps, ofErr]⟩)⟩
+      | unexpectedEOF => exact ⟨hh, Or.inr (Or.inr ⟨rfl, _, rfl, by simp [keeps, ofErr]⟩)⟩
+      | other w => exact ⟨hh, Or.inr (Or.inr ⟨rfl, _, rfl, by simp [keeps, ofErr]⟩)⟩
+      | panic w => exact ⟨hh, Or.inr (Or.inr ⟨rfl, _, rfl, by simp [keeps, ofErr]⟩)⟩
+
+/-- **batch_close_consumes_frame.**  For every fetch version, fetch offset, deadline outcome, content of the stream
+and every sequence of `ReadMessage` / `Read(buffer of any capacity)` calls (including none) before `Close`:
+the bytes consumed are charged to the frame one for one, and IF THE CONN IS KEPT the frame has been consumed to its
+last byte (or the stream has ended) — never a kept conn with part of the response still in the stream.
+No side condition on the response any more: until /repo 5ef8978 a response at the high watermark had to carry an
+empty message set (the `empty` reader reads nothing, C11 `fetch_at_watermark_counterexample`); `ReadBatchWith` now
+skips such a set itself and the theorem holds for every response. -/
+theorem batch_close_consumes_frame (expired : Bool) (v : Nat) (offset : Int) (fuel : Nat) (ops : List Op) (s : RS) :
+    Adv s (fetchBatch expired v offset fuel ops s).rs ∧
+    ((fetchBatch expired v offset fuel ops s).kept = true → FrameDone (fetchBatch expired v offset fuel ops s).rs) := by
+  have ho := openBatch_shape expired v offset s
+  have hops := runOps_adv expired fuel ops (openBatch expired v offset s)
+  have hk := batchClose_kept (runOps expired fuel ops (openBatch expired v offset s)).2
+  have hcl : Adv (runOps expired fuel ops (openBatch expired v offset s)).2.rs
+      (batchClose (runOps expired fuel ops (openBatch expired v offset s)).2).2.1 := by
+    unfold batchClose
+    simp only
+    split
+    · exact conserves_discardN _ _
+    · exact Adv.refl _
+  refine ⟨?_, ?_⟩
+  · simp only [fetchBatch]
+    exact Adv.trans ho.1 (Adv.trans hops.1 hcl)
+  · intro hkept
+    simp only [fetchBatch] at hkept ⊢
+    rcases ho.2 with ⟨hm, he⟩ | ⟨he, hfd⟩ | ⟨hm, e, hee, hdone⟩
+    · -- a real reader: Close discards whatever is left
+      unfold batchClose
+      simp only [hops.2.1, hops.2.2, hm, he, Bool.not_false, Bool.and_self, ↓reduceIte]
+      exact discard_rest_done _
+    · -- the watermark shortcut: nothing is read, nothing may be there
+      have hrs := runOps_empty_rs expired fuel ops _ he
+      unfold batchClose
+      simp only [hops.2.2, he, Bool.not_true, Bool.and_false, Bool.false_eq_true, ↓reduceIte, hrs]
+      exact hfd
+    · -- the header failed: the Batch is born with an error and never reads
+      have hfix := runOps_err_fixed expired fuel ops _ e hee
+      rw [hfix] at hk hkept ⊢
+      rw [hk, hee] at hkept
+      unfold batchClose
+      simp only [hm, Bool.false_and, Bool.false_eq_true, ↓reduceIte]
+      exact hdone hkept
+
+/-- the same for every request/response operation that goes through `(*Conn).do` (C11's operation table over the
+regenerated `readFrom` programs): `Event.finish ok` and `finish kafka` of Model/ConnMux are `Outcome.ok` /
+`Outcome.kafka` of `ConnOps.opRead`, `finish io` is `Outcome.fail`.  For a good operation (expectZeroSize, and a
+kafka error drained or impossible inside the parse) a body that does not fail has consumed its frame to the last
+byte — the byte-level meaning of "`take` removes a frame whole" outside Fetch.  (Corollary of C11's lemmas
+`opRead_adv`, `opRead_not_fail_zero`.) -/
+theorem finish_without_failure_consumes_frame (o : OpSpec) (v : Nat) (topic : Bytes) (s : RS)
+    (hz : o.expectZero = true) (hg : o.drain = true ∨ hasFailList (o.parse v) = false)
+    (hnf : (opRead o v topic s).1.isFail = false) :
+    (opRead o v topic s).2.sz = 0 ∧ (opRead o v topic s).2.inp = s.inp.drop s.sz := by
+  have hzero := opRead_not_fail_zero o v topic s hz hg hnf
+  exact ⟨hzero, ((opRead_adv o v topic s).consumed_all hzero).2⟩
+
+/-- in the kept case with the frame on the stream: what is left is exactly what followed the frame -/
+theorem batch_close_leaves_next_frame (expired : Bool) (v : Nat) (offset : Int) (fuel : Nat) (ops : List Op) (s : RS)
+    (hz : (fetchBatch expired v offset fuel ops s).rs.sz = 0) :
+    (fetchBatch expired v offset fuel ops s).rs.inp = s.inp.drop s.sz :=
+  ((batch_close_consumes_frame expired v offset fuel ops s).1.consumed_all hz).2
+
+end BatchBytes
+
+/-! ## Part 4 — the structural facts the models stand on, re-read from the source on every run
+
+`go/extract/muxfacts` parses conn.go, batch.go, transport.go, protocol/conn.go and protocol/roundtrip.go (never
+runs them) and writes `Gen/MuxFacts.lean`.  Each fact is a SHAPE (fields and methods by name, locals and
+parameters by position and data flow), so behaviour-preserving edits leave it true.  What each one carries:
+
+* `idAndWriteUnderWlock`, `idIncrementedOnceByOne` — `Event.write` is one atomic step that numbers the call
+  `nextSeq + 1` and puts exactly that id on the wire (`write_id_fresh`, `ids_unique_inflight`).
+* `takeOnlyOnIdMatch` — `Event.take` requires `f.id = wire seq` (`own_response_or_error`).
+* `peekErrorCloses`, `bodyErrorClosesUnlessKafka` — `peekErr` and `finish io` close the conn (`timeout_closes`,
+  `unreadable_body_closes`): a frame is consumed whole or the conn is closed.
+* `hooksInsideCriticalSections` — the trace-acceptance tie: each `C.*` / `T.*` hook is recorded while the mutex
+  that makes its event atomic is held (wlock, rlock, the group mutex; `run` is a single goroutine), so the recorded
+  order is an order in which the critical sections really happened.
+* `promisePairedWithRequest`, `runAnswersItsOwnRequest` — TransportConn `Delivery`: the response of an exchange
+  goes to the promise created with that request.
+* `loneOnlyWhenAlone` — `Event.lone` requires `aloneWaiting`.
+* `readFailureCloseDropsBuffered` — `finish io` sets `closed`, and `closed_is_final` says no call takes a frame after
+  that: in the code the close of an unreadable response must also drop what is buffered of it, under the read lock
+  (finding C06-D30: closing the net.Conn alone left the leftover in the bufio.Reader for the waiting callers).
+* `wireSitesThreaded`, `remainOnlyFromPrims`, `batchCallbacksThreaded` — the hypothesis of
+  `wire_discipline_consumes_frame` below.
+* `batchCloseDiscards`, `discardRewindsToWire`, `batchCloseKeepsOnlyKafkaOrShortBuffer`, `readValueAccountsBytes`,
+  `messageSetSizeFromHeader` — the steps of Model/BatchBytes.lean (`batchClose`, `valOfRead`, `openBatch`) that
+  `batch_close_consumes_frame` composes.
+* `failedExchangeEndsRun`, `releaseInsideRun` — TransportConn: `done err` leads to `finished false`, from which only
+  `exit` is possible (`failed_exchange_drops`, `no_leftover_in_pool`).
+* `idgenAdvancesPerExchange`, `roundTripChecksId` — TransportConn: `recv` increments `idgen`, `done ok` requires
+  `f.id = wire idgen` (`transport_own_response`). -/
+theorem structural_facts_hold :
+    Gen.MuxFacts.idAndWriteUnderWlock = true ∧ Gen.MuxFacts.idIncrementedOnceByOne = true ∧
+    Gen.MuxFacts.takeOnlyOnIdMatch = true ∧ Gen.MuxFacts.peekErrorCloses = true ∧
+    Gen.MuxFacts.bodyErrorClosesUnlessKafka = true ∧ Gen.MuxFacts.batchCloseDiscards = true ∧
+    Gen.MuxFacts.batchCloseKeepsOnlyKafkaOrShortBuffer = true ∧ Gen.MuxFacts.readValueAccountsBytes = true ∧
+    Gen.MuxFacts.messageSetSizeFromHeader = true ∧ Gen.MuxFacts.failedExchangeEndsRun = true ∧
+    Gen.MuxFacts.releaseInsideRun = true ∧ Gen.MuxFacts.idgenAdvancesPerExchange = true ∧
+    Gen.MuxFacts.roundTripChecksId = true ∧ Gen.MuxFacts.discardRewindsToWire = true ∧
+    Gen.MuxFacts.wireSitesThreaded = true ∧ Gen.MuxFacts.remainOnlyFromPrims = true ∧
+    Gen.MuxFacts.batchCallbacksThreaded = true ∧ Gen.MuxFacts.hooksInsideCriticalSections = true ∧
+    Gen.MuxFacts.promisePairedWithRequest = true ∧ Gen.MuxFacts.runAnswersItsOwnRequest = true ∧
+    Gen.MuxFacts.loneOnlyWhenAlone = true ∧ Gen.MuxFacts.readFailureCloseDropsBuffered = true := by decide
+
+/-- **Every reader in the size-threading discipline consumes its frame whole.**  Model/BatchBytes.lean spells out the
+magic-0/1 path; the rest of message_reader.go (record batches, varints, record headers, both decompression sites,
+the reader stack) is covered by shape: `wireSitesThreaded`, `remainOnlyFromPrims` and `batchCallbacksThreaded`
+say that the code touches the connection only as `r.remain, err = prim(r.reader, r.remain, …)` (10 sites), through
+the batch.go callbacks (which use only readNewBytes / discardN / io.ReadFull) and through two LimitedReaders charged
+`n − N`.  For ANY program of that form — whatever it computes, however it treats errors, whatever the bytes —
+followed by the `discardN(r.remain)` of `Batch.close`: consumed bytes and counter agree, the frame ends with the counter
+at zero or the stream ended, and at zero what is left of the stream is exactly what followed the frame. -/
+theorem wire_discipline_consumes_frame {α : Type} (prog : WireProg.Prog α) (s : Reader.RS) :
+    let s1 := (prog.run s).2
+    let s2 := (Reader.discardN (↑s1.sz) s1).2
+    Reader.Adv s s2 ∧ (s2.sz = 0 ∨ s2.inp = []) ∧ (s2.sz = 0 → s2.inp = s.inp.drop s.sz) :=
+  WireProg.prog_then_discard_finishes prog s
+
+/-- non-vacuity: a program that reads a length, then that many bytes through a "codec" that stops early, ignores
+the error of a further read and returns; the discard still lands on the frame boundary -/
+example :
+    let prog : WireProg.Prog Nat :=
+      .call (.peekRead 1) fun r => match r with
+        | .ok [n] => .call (.readUpTo n.toNat 2) fun _ => .call (.peekRead 9) fun _ => .ret 7
+        | _ => .ret 0
+    let s1 := (prog.run ⟨[5, 1, 2, 3, 4, 5, 6, 99, 98], 7⟩).2
+    (Reader.discardN (↑s1.sz) s1).2 = ⟨[99, 98], 0⟩ := by decide
+
+/-! ## Part 5 — the decision structure of waitResponse, do and conn.run IS the models' transition structure
+
+`go/extract/muxfacts/symflow.go` executes the three functions symbolically: every condition is classified into a
+named predicate by data flow (the error returned by the peek, the id parameter against the peeked id,
+`concurrency() == 1`; the error of doRequest / waitResponse / the read closure, `errors.As(err, &kafkaError)`; the
+error of the round trip, `errors.Is(err, ErrNoRecord)`, the result of `releaseConn`), every combination of truth
+values is run through if / switch / for / break / return, and the calls that matter are recorded in order
+(`Gen.MuxFacts.waitResponseFlow`, `doFlow`, `runFlow`).  Below, the same rows are computed FROM THE MODELS — which
+event the scenario is, what `step` does to `closed`, `rlock`, the call's status, the pooled conn's state — and the
+theorem says the two agree row by row. -/
+section Flow
+
+def flag (sc : List String) (p : String) : Bool := sc.contains (p ++ "=true")
+
+/-- waitResponse: the scenario as a ConnMux event on a state with one (alone) or two waiting callers and one frame
+on the stream whose id matches call 1 or nobody -/
+def waitResponseModelRow (sc : List String) : List String :=
+  let pf := flag sc "peekFailed"; let im := flag sc "idMatches"; let al := flag sc "alone"
+  let fid := if im then 1 else 7
+  let pre : List Event := if al then [.write 10 true 1] else [.write 10 true 1, .write 20 true 2]
+  let ev : Event := if pf then .peekErr 1 else if im then .take 1 else if al then .lone 1 7 else .yield 1 7
+  match run [⟨fid, 0⟩] pre with
+  | none => ["model: no such state"]
+  | some s0 =>
+    match step s0 ev with
+    | none => ["model: event not enabled"]
+    | some s1 =>
+      let st := statusOf s1 1
+      ["lock", "peek"] ++
+      (match st with | some (.reading _ _) => ["skip"] | _ => []) ++
+      (if st == some (.done .err) && !pf then ["noProgress"] else []) ++
+      (if s1.closed then ["close"] else []) ++
+      (if s1.rlock.isNone then ["unlock"] else []) ++
+      (if st == some .waiting then ["loop"] else []) ++ ["leave"]
+
+/-- (*Conn).do: request written or not, response taken or not, body outcome -/
+def doModelRow (sc : List String) : List String :=
+  let rf := flag sc "requestFailed"; let wf := flag sc "waitFailed"
+  let bf := flag sc "readFailed"; let ik := flag sc "isKafkaError"
+  if rf then ["doRequest"]
+  else if wf then ["doRequest", "waitResponse"]
+  else
+    let o : Body := if !bf then .ok else if ik then .kafka else .io
+    match run [⟨1, 0⟩] [.write 10 true 1, .take 1] with
+    | none => ["model: no such state"]
+    | some s0 =>
+      match step s0 (.finish 1 o) with
+      | none => ["model: event not enabled"]
+      | some s1 => ["doRequest", "waitResponse", "read"] ++ (if s1.closed then ["close"] else []) ++
+          (if s1.rlock.isNone then ["unlock"] else [])
+
+/-- transport.go (*conn).run: one iteration as TransportConn events -/
+def runModelRow (sc : List String) : List String :=
+  let ef := flag sc "exchangeFailed"; let nr := flag sc "noRecord"; let rel := flag sc "released"
+  let o : TransportConn.Outcome := if !ef then .ok else if nr then .errKeep else .err
+  let pre : List TransportConn.Event :=
+    (if rel then [] else [.closeIdle 1]) ++ [.new 1 1 1 [⟨2, 5⟩], .recv 1 5]
+  match TransportConn.run pre with
+  | none => ["model: no such state"]
+  | some s0 =>
+    match TransportConn.step s0 (.done 1 o) with
+    | none => ["model: event not enabled"]
+    | some s1 =>
+      let answered := if s1.delivered.length > s0.delivered.length then "resolve" else "reject"
+      -- `run` resolves with whatever the round trip returned; the model delivers only on `ok`
+      let answered := if !ef then "resolve" else answered
+      match TransportConn.step s1 (.release 1 rel) with
+      | none => ["defer:closeSocket", "roundTrip", answered, "leave-loop"]          -- finished false: nothing but exit
+      | some s2 =>
+        ["defer:closeSocket", "roundTrip", answered, "release",
+         if (s2.conns 1).st == .idle then "next-iteration" else "leave-loop"]
+
+/-- (*Conn).doRequest: one `write` event -/
+def doRequestModelRow (sc : List String) : List String :=
+  let wf := flag sc "writeFailed"
+  match step (init []) (.write 10 (!wf) 1) with
+  | none => ["model: event not enabled"]
+  | some s1 =>
+    ["enter", "lock", "nextId", "write"] ++
+    (if s1.closed && statusOf s1 1 == some (.done .err) then ["close", "leave"] else []) ++ ["unlock"]
+
+/-- protocol.RoundTrip on a pooled conn in the middle of an exchange: `done ok` is possible exactly when a frame
+with the id just written is read -/
+def roundTripModelRow (sc : List String) : List String :=
+  let wf := flag sc "writeFailed"; let er := flag sc "expectsResponse"
+  let rf := flag sc "readFailed"; let mm := flag sc "idMismatch"
+  if wf then ["write", "return:error"]
+  else if !er then ["write", "return:nothing"]
+  else
+    let fid := if mm then 9 else 2
+    match TransportConn.run [.new 1 1 1 [⟨fid, 5⟩], .recv 1 5] with
+    | none => ["model: no such state"]
+    | some s0 =>
+      let okPossible := (TransportConn.step s0 (.done 1 .ok)).isSome
+      ["write", "read", if !rf && okPossible then "return:response" else "return:error"]
+
+/-- the idle stack: a pooled conn that has just completed an exchange, in a group that is closed or not -/
+def releaseConnModelRow (sc : List String) : List String :=
+  let gc := flag sc "groupClosed"
+  let pre : List TransportConn.Event := (if gc then [.closeIdle 1] else []) ++ [.new 1 1 1 [⟨2, 5⟩], .recv 1 5, .done 1 .ok]
+  match TransportConn.run pre with
+  | none => ["model: no such state"]
+  | some s0 =>
+    -- the model takes `release` only with the `accepted` that the group's state dictates
+    match TransportConn.step s0 (.release 1 (!gc)), TransportConn.step s0 (.release 1 gc) with
+    | some s1, none =>
+      ["lock", "defer:unlock"] ++ (if (s1.conns 1).st == .idle then ["push"] else []) ++ [if !gc then "return:true" else "return:false"]
+    | _, _ => ["model: release not determined"]
+
+def grabConnModelRow (sc : List String) : List String :=
+  let pre : List TransportConn.Event :=
+    if flag sc "idleEmpty" then [] else [.new 1 1 1 [⟨2, 5⟩], .recv 1 5, .done 1 .ok, .release 1 true]
+  match TransportConn.run pre with
+  | none => ["model: no such state"]
+  | some s0 =>
+    match TransportConn.step s0 (.grab 1) with
+    | some s1 => ["lock", "defer:unlock"] ++ (if (s1.conns 1).st == .grabbed then ["pop", "return:conn"] else ["?"])
+    | none => ["lock", "defer:unlock", "return:nil"]
+
+def removeConnModelRow (sc : List String) : List String :=
+  -- `isThisConn`: the conn is (still) in the idle stack when its timer fires
+  let pre : List TransportConn.Event :=
+    [.new 1 1 1 [⟨2, 5⟩], .recv 1 5, .done 1 .ok, .release 1 true] ++ (if flag sc "isThisConn" then [] else [.grab 1])
+  match TransportConn.run pre with
+  | none => ["model: no such state"]
+  | some s0 =>
+    match TransportConn.step s0 (.remove 1) with
+    | some s1 => ["lock", "defer:unlock"] ++ (if (s1.conns 1).st == .closing then ["pop", "return:true"] else ["?"])
+    | none => ["lock", "defer:unlock", "return:false"]
+
+def closeIdleConnsModelRow (_ : List String) : List String :=
+  match TransportConn.run [.new 1 1 1 [⟨2, 5⟩], .recv 1 5, .done 1 .ok, .release 1 true] with
+  | none => ["model: no such state"]
+  | some s0 =>
+    match TransportConn.step s0 (.closeIdle 1) with
+    | none => ["model: event not enabled"]
+    | some s1 =>
+      ["lock"] ++ (if (s1.conns 1).st != .idle then ["clearIdle"] else []) ++
+      (if s1.closedGroups.contains 1 then ["markClosed"] else []) ++ ["unlock"] ++
+      (if (s1.conns 1).st == .closing then ["closeConn"] else [])
+
+/-- how (*Conn).ApiVersions ends the exchange (since /repo 2b8f9f7): the body parsed and nothing left → `ok`; the broker's
+error code and nothing left → `kafka` (conn kept, frame consumed); a body that could not be read, or bytes left after
+the list (checked by `expectZeroSize` unless the read already failed) → `io`: the conn is closed -/
+def apiVersionsOutcome (bodyKafka bodyOther trailing : Bool) : Body :=
+  if bodyOther || trailing then .io else if bodyKafka then .kafka else .ok
+
+/-- (*Conn).ApiVersions uses the multiplexer without `do`: the read lock taken by waitResponse is released by a
+deferred unlock in every case; the conn is closed exactly when ConnMux's `finish` with `apiVersionsOutcome` closes it -/
+def apiVersionsModelRow (sc : List String) : List String :=
+  if flag sc "requestFailed" then ["doRequest", "return"]
+  else if flag sc "waitFailed" then ["doRequest", "waitResponse", "return"]
+  else
+    match run [⟨1, 0⟩] [.write 0 true 1, .take 1] with
+    | none => ["model: no such state"]
+    | some s0 =>
+      let other := sc.contains "body=other"
+      match step s0 (.finish 1 (apiVersionsOutcome (sc.contains "body=kafka") other (flag sc "trailingBytes"))) with
+      | none => ["model: event not enabled"]
+      | some s1 =>
+        ["doRequest", "waitResponse"] ++ (if s0.rlock.isSome && s1.rlock.isNone then ["defer:unlock"] else []) ++
+        ["readBody"] ++ (if other then [] else ["checkSize"]) ++ (if s1.closed then ["close"] else []) ++ ["return"]
+
+/-- a v2 fetch response body: header (watermark `hwm`) and one empty magic-1 message -/
+def sampleFetchBody (hwm : UInt8) : KV.Bytes :=
+  [0,0,0,0, 0,0,0,1, 0,1,116, 0,0,0,1, 0,0,0,0, 0,0, 0,0,0,0,0,0,0,hwm, 0,0,0,34,
+   0,0,0,0,0,0,0,0, 0,0,0,22, 0,0,0,0, 1, 0, 0,0,0,0,0,0,0,1, 255,255,255,255, 0,0,0,0]
+
+/-- the same header at the watermark with an empty message set -/
+def emptySetFetchBody : KV.Bytes :=
+  [0,0,0,0, 0,0,0,1, 0,1,116, 0,0,0,1, 0,0,0,0, 0,0, 0,0,0,0,0,0,0,0, 0,0,0,0]
+
+/-- (*Conn).ReadBatchWith: the failures in front of the exchange return a Batch that carries only the error; once
+waitResponse has taken the frame the Batch holds the read lock (ConnMux: `rlock` stays with the call until `finish`),
+whatever the header says; the message-set reader is created exactly when `BatchBytes.openBatch` creates one -/
+def readBatchWithModelRow (sc : List String) : List String :=
+  if flag sc "seekFailed" then ["seek", "return:batchWithErrorOnly"]
+  else if flag sc "negotiateFailed" then ["seek", "negotiate", "return:batchWithErrorOnly"]
+  else if flag sc "requestFailed" then ["seek", "negotiate", "doRequest", "return:batchWithErrorOnly"]
+  else if flag sc "waitFailed" then ["seek", "negotiate", "doRequest", "waitResponse", "return:batchWithErrorOnly"]
+  else
+    match run [⟨1, 0⟩] [.write 0 true 1, .take 1] with
+    | none => ["model: no such state"]
+    | some s0 =>
+      let wm := flag sc "atWatermark"
+      let body : KV.Bytes :=
+        if flag sc "headerFailed" then [0, 0]
+        else if wm && !flag sc "setNotEmpty" then emptySetFetchBody
+        else sampleFetchBody (if wm then 0 else 5)
+      let s1 : Reader.RS := ⟨body, body.length⟩
+      let b := BatchBytes.openBatch false 2 0 s1
+      -- at the watermark the message set, if any, is skipped at once: the model's reader state moves to the frame end
+      let skipped := b.empty && b.rs.sz == 0 && b.rs.inp.isEmpty && body.length > emptySetFetchBody.length
+      ["seek", "negotiate", "doRequest", "waitResponse", "readHeader", "drainOnKafkaError"] ++
+      (if skipped then ["skipSetAtWatermark"] else []) ++
+      (if b.hasMsgs && !b.empty then ["newMessageSetReader"] else []) ++
+      [if s0.rlock.isSome then "return:batchHoldingTheLock" else "return:batchWithErrorOnly"]
+
+/-- (*Batch).close, for each class of the batch's sticky error: the message-set reader (when there is one) is
+discarded, the conn is closed exactly when `BatchBytes.batchClose` says it is not kept, and the read lock is given back
+in every case (ConnMux: `finish` always clears `rlock`) -/
+def batchCloseModelRow (sc : List String) : List String :=
+  let err : Option BatchBytes.BErr :=
+    if sc.contains "err=nil" then none
+    else if sc.contains "err=eof" then some .eof
+    else if sc.contains "err=kafka" then some (.kafka 7)
+    else if sc.contains "err=short" then some .shortBuffer
+    else some .other
+  let body := sampleFetchBody 5
+  let b : BatchBytes.BSt :=
+    { rs := ⟨body, body.length⟩, pending := none, offset := 0, err := err, hasMsgs := flag sc "hasMsgs", empty := false }
+  let (_, rs', kept) := BatchBytes.batchClose b
+  let unlocked := match run [⟨1, 0⟩] [.write 0 true 1, .take 1, .finish 1 (if kept then .ok else .io)] with
+    | some s => s.rlock.isNone
+    | none => false
+  (if rs' != b.rs then ["discard"] else []) ++ (if kept then [] else ["closeConn"]) ++ (if unlocked then ["unlock"] else [])
+
+/-- the extracted decision tables are the models' transitions -/
+theorem flow_tables_are_the_models :
+    Gen.MuxFacts.batchCloseFlow.all (fun (sc, eff) => batchCloseModelRow sc == eff) = true ∧
+    Gen.MuxFacts.apiVersionsFlow.all (fun (sc, eff) => apiVersionsModelRow sc == eff) = true ∧
+    Gen.MuxFacts.readBatchWithFlow.all (fun (sc, eff) => readBatchWithModelRow sc == eff) = true ∧
+    Gen.MuxFacts.releaseConnFlow.all (fun (sc, eff) => releaseConnModelRow sc == eff) = true ∧
+    Gen.MuxFacts.grabConnFlow.all (fun (sc, eff) => grabConnModelRow sc == eff) = true ∧
+    Gen.MuxFacts.removeConnFlow.all (fun (sc, eff) => removeConnModelRow sc == eff) = true ∧
+    Gen.MuxFacts.closeIdleConnsFlow.all (fun (sc, eff) => closeIdleConnsModelRow sc == eff) = true ∧
+    Gen.MuxFacts.doRequestFlow.all (fun (sc, eff) => doRequestModelRow sc == eff) = true ∧
+    Gen.MuxFacts.roundTripFlow.all (fun (sc, eff) => roundTripModelRow sc == eff) = true ∧
+    Gen.MuxFacts.waitResponseFlow.all (fun (sc, eff) => waitResponseModelRow sc == eff) = true ∧
+    Gen.MuxFacts.doFlow.all (fun (sc, eff) => doModelRow sc == eff) = true ∧
+    Gen.MuxFacts.runFlow.all (fun (sc, eff) => runModelRow sc == eff) = true := by
+  decide
+
+end Flow
 
 end KV.C06
